@@ -1,4 +1,91 @@
-import AdfModel.Api
+/-
+  C14 — Format/mount round trip: the geometry arithmetic, for every volume size.
+  Model: AdfModel/Bitmap.lean (nBlock2bitmapSize, index arithmetic), AdfModel/Vol.lean (createVol:
+  root = n/2; pages; extension blocks).
+  A volume of n blocks maps blocks 2..n-1 (n-2 of them) in pages of 4064 bits; the root block lists
+  25 pages, each bitmap-extension block 127 more.  The theorems hold for all n (no sampled sizes).
+  NOT proved (see MANIFEST): that the model's format function, run on every geometry, yields a well-formed
+  volume — that is checked per geometry by tools/props/C14.py (decoder + closed form) on code and model.
+-/
+import AdfModel.Vol
 namespace Adf.C14
-theorem C14_placeholder : True := trivial
+open Adf
+
+/-- `nBlock2bitmapSize` is the ceiling of n / 4064 -/
+theorem C14_pages_ceil (n : Nat) : nBlock2bitmapSize n = (n + 4063) / 4064 := by
+  unfold nBlock2bitmapSize BM_PAGE_BLOCKS
+  by_cases h : n % 4064 ≠ 0
+  · rw [if_pos h]; omega
+  · rw [if_neg h]; omega
+
+/-- the pages cover exactly the mapped blocks: enough bits, and no page is superfluous -/
+theorem C14_pages_cover (n : Nat) (hn : 0 < n) :
+    n ≤ nBlock2bitmapSize n * 4064 ∧ (nBlock2bitmapSize n - 1) * 4064 < n := by
+  rw [C14_pages_ceil]; omega
+
+/-- every block of the volume (2 ≤ b < nblocks) indexes a page that exists, a word 1..127 of it and a bit 0..31:
+    the unchecked table accesses of adfIsBlockFree / adfSetBlockUsed / adfSetBlockFree are in bounds for
+    every block number inside the volume -/
+theorem C14_block_index_in_table (nblocks b : Nat) (hb : 2 ≤ b) (hlt : b < nblocks) :
+    (b - 2) / BM_PAGE_BLOCKS < nBlock2bitmapSize (nblocks - 2) ∧
+    1 ≤ 1 + ((b - 2) / 32) % 127 ∧ 1 + ((b - 2) / 32) % 127 ≤ 127 ∧ (b - 2) % 32 < 32 := by
+  rw [C14_pages_ceil]; unfold BM_PAGE_BLOCKS; omega
+
+/-- distinct blocks have distinct (page, word, bit) coordinates: no two blocks share a bit -/
+theorem C14_bit_coordinates_injective (a b : Nat) (ha : 2 ≤ a) (hb : 2 ≤ b)
+    (h1 : (a - 2) / 4064 = (b - 2) / 4064) (h2 : ((a - 2) / 32) % 127 = ((b - 2) / 32) % 127)
+    (h3 : (a - 2) % 32 = (b - 2) % 32) : a = b := by
+  omega
+
+/-- number of bitmap-extension blocks `adfWriteNewBitmap` allocates for `size` pages -/
+def nExtBlocks (size : Nat) : Nat :=
+  if size > BM_SIZE then (size - BM_SIZE) / 127 + (if (size - BM_SIZE) % 127 ≠ 0 then 1 else 0) else 0
+
+/-- root slots + extension blocks hold exactly the pages: enough room, and no extension block is superfluous -/
+theorem C14_ext_blocks_cover (size : Nat) :
+    size ≤ 25 + 127 * nExtBlocks size ∧ (25 < size → 25 + 127 * (nExtBlocks size - 1) < size) ∧
+    (size ≤ 25 → nExtBlocks size = 0) := by
+  unfold nExtBlocks BM_SIZE
+  by_cases h : size > 25
+  · rw [if_pos h]
+    by_cases h2 : (size - 25) % 127 ≠ 0
+    · rw [if_pos h2]; omega
+    · rw [if_neg h2]; omega
+  · rw [if_neg h]; omega
+
+/-- the closed form the checks compare the library's count against: on a fresh volume of n blocks the blocks in use
+    are the root block, the pages, the extension blocks and (DIRCACHE) one cache block -/
+def freshFree (n : Nat) (dirc : Bool) : Nat :=
+  let pages := nBlock2bitmapSize (n - 2)
+  n - 2 - 1 - pages - nExtBlocks pages - (if dirc then 1 else 0)
+
+/-- for every volume of at least 16 blocks the formula is a true difference (nothing is clipped at 0)
+    and the volume has room for its own metadata -/
+theorem C14_fresh_free_exact (n : Nat) (dirc : Bool) (hn : 16 ≤ n) :
+    freshFree n dirc + 1 + nBlock2bitmapSize (n - 2) + nExtBlocks (nBlock2bitmapSize (n - 2)) + (if dirc then 1 else 0) = n - 2 := by
+  unfold freshFree
+  have hp := C14_pages_ceil (n - 2)
+  have he := C14_ext_blocks_cover (nBlock2bitmapSize (n - 2))
+  simp only []
+  have hpages : nBlock2bitmapSize (n - 2) ≤ (n - 2 + 4063) / 4064 := by rw [hp]; exact Nat.le_refl _
+  have hext : nExtBlocks (nBlock2bitmapSize (n - 2)) ≤ nBlock2bitmapSize (n - 2) := by
+    unfold nExtBlocks BM_SIZE
+    split
+    · split <;> omega
+    · omega
+  cases dirc <;> simp <;> omega
+
+/-- root block position of `adfCreateVol` / `adfMountFlop`: inside the volume, behind the boot blocks -/
+theorem C14_root_position (n : Nat) (hn : 4 ≤ n) : 2 ≤ n / 2 ∧ n / 2 < n := by omega
+
+/-- the volume range from a cylinder range: `len` cylinders of `heads*secs` blocks -/
+theorem C14_range_size (heads secs start len : Nat) (h : 0 < heads * secs * len) :
+    (heads * secs * start + heads * secs * len - 1) - heads * secs * start + 1 = heads * secs * len := by
+  omega
+
+/-- witnesses: DD floppy, HD floppy, the sizes that used to mis-mount, and a volume that needs an extension block -/
+example : nBlock2bitmapSize (1760 - 2) = 1 ∧ freshFree 1760 false = 1756 ∧ freshFree 1760 true = 1755 ∧
+          freshFree 3520 false = 3516 ∧ nBlock2bitmapSize (4067 - 2) = 2 ∧ freshFree 4067 false = 4062 ∧
+          nBlock2bitmapSize (110000 - 2) = 28 ∧ nExtBlocks 28 = 1 ∧ freshFree 110000 false = 109968 := by decide
+
 end Adf.C14
